@@ -969,6 +969,11 @@ pub fn miri_workload(seed: u64) -> Workload {
                 }
                 w.threads.push(ops);
             }
+            // a burst of threads whose first (and only) evaluation happens at the same time:
+            // per-thread state registered lazily in a process-wide table
+            for k in 0..14 {
+                w.threads.push(vec![TOp::EvalTree { tree: k % 4, ctx: CtxSel::Main, entry: 0 }]);
+            }
         },
         2 => {
             // first concurrent use of fresh trees with constant sub-expressions; parse + evaluate
@@ -1068,16 +1073,23 @@ pub fn miri_scenario(seed: u64) -> i32 {
     };
     let mut results: Vec<Vec<String>> = Vec::new();
     let mut built: Vec<Vec<Ctx>> = Vec::new();
+    // start line: every thread is spawned first, then all are released at once
+    let go = std::sync::atomic::AtomicBool::new(false);
+    let go = &go;
     std::thread::scope(|scope| {
         let mut handles = Vec::new();
         for ops in w.threads.iter() {
             let sh = sh.clone();
             handles.push(scope.spawn(move || {
+                while !go.load(std::sync::atomic::Ordering::Acquire) {
+                    std::thread::yield_now();
+                }
                 let _ = take_built();
                 let r = ops.iter().map(|o| exec(o, &sh)).collect::<Vec<String>>();
                 (r, take_built())
             }));
         }
+        go.store(true, std::sync::atomic::Ordering::Release);
         for h in handles {
             match h.join() {
                 Ok((r, b)) => {
